@@ -150,7 +150,7 @@ def main():
     chk.cov["traces_validated_against_impl"] = len(events)
     chk.cov["evaluations"] = len(events)
     chk.cov["distinct_nontrivial"] = len({json.dumps([c["list"], c["f"], c["nodeps"]]) for c in cases if len(c["list"]) > 0})
-    chk.cov["rule"] = (f"every pattern list of length <= {maxlen} over {len(SYMS_ALL)} pattern symbols x 3 fn names x "
+    chk.cov["rule"] = (f"every pattern list of length <= {maxlen} (quick: plus every list of length 3 over the 6 symbols that interact with generated names) over {len(SYMS_ALL)} pattern symbols x 3 fn names x "
                        "deps/no_deps that is valid Rust in the original function; non-trivial = at least one parameter")
     chk.cov["exhaustive"] = True
     chk.cov["drift"] = len({d["case"] for d in drift})
